@@ -1112,11 +1112,30 @@ func (m *Machine) lockOrder() []*lockState {
 	return l
 }
 
+func (m *Machine) curThreadID() int {
+	if s := m.sched(); s != nil && s.cur != nil {
+		return s.cur.id
+	}
+	return 0
+}
+
 func (m *Machine) lock(fr *frame, p *Value, read bool) {
 	if p == nil {
 		fr.goPanic("nil dereference", "Lock on nil mutex")
 	}
 	l := m.lockState(p)
+	me := m.curThreadID()
+	if m.sched() != nil {
+		if !read && l.held == 1 && l.owner == me {
+			m.abort(abBlocked, "Lock of a mutex that this thread already holds (self-deadlock) at %s", fr.site())
+		}
+		site := fr.site()
+		if read {
+			m.yield(func() bool { return l.held <= 0 }, "RLock at "+site)
+		} else {
+			m.yield(func() bool { return l.held == 0 }, "Lock at "+site)
+		}
+	}
 	if read {
 		if l.held > 0 {
 			m.abort(abBlocked, "RLock while write-locked at %s", fr.site())
@@ -1128,6 +1147,7 @@ func (m *Machine) lock(fr *frame, p *Value, read bool) {
 		m.abort(abBlocked, "Lock of a mutex that is already held (self-deadlock) at %s; taken at %v", fr.site(), l.holders)
 	}
 	l.held = 1
+	l.owner = me
 	l.holders = append(l.holders, fr.site())
 }
 
@@ -1141,13 +1161,16 @@ func (m *Machine) unlock(fr *frame, p *Value, read bool) {
 			panic(&GoPanic{Class: "fatal: RUnlock of unlocked RWMutex", Site: fr.site()})
 		}
 		l.held++
-		return
+	} else {
+		if l.held != 1 {
+			panic(&GoPanic{Class: "fatal: unlock of unlocked mutex", Site: fr.site()})
+		}
+		l.held = 0
+		l.holders = nil
 	}
-	if l.held != 1 {
-		panic(&GoPanic{Class: "fatal: unlock of unlocked mutex", Site: fr.site()})
+	if m.sched() != nil {
+		m.yield(nil, "")
 	}
-	l.held = 0
-	l.holders = nil
 }
 
 func (m *Machine) heldLocks() []*lockState {
@@ -1170,6 +1193,10 @@ func (m *Machine) syncMap(p *Value) *Map {
 	return mp
 }
 
-func (m *Machine) onSyncMap(fr *frame, p *Value, write bool) {}
+func (m *Machine) onSyncMap(fr *frame, p *Value, write bool) {
+	if m.sched() != nil {
+		m.yield(nil, "")
+	}
+}
 
 var _ = reflect.TypeOf
